@@ -532,6 +532,8 @@ def _pure_cond(e, ok_names):
         return _pure_cond(e.value, ok_names) and isinstance(e.slice, (ast.Constant, ast.UnaryOp))
     if isinstance(e, ast.Tuple):
         return all(_pure_cond(x, ok_names) for x in e.elts)
+    if isinstance(e, ast.BinOp) and isinstance(e.op, (ast.Add, ast.Sub)):
+        return _pure_cond(e.left, ok_names) and _pure_cond(e.right, ok_names)
     if isinstance(e, ast.Call):
         f = e.func
         nm = f.id if isinstance(f, ast.Name) else (f.attr if isinstance(f, ast.Attribute) else None)
@@ -564,9 +566,8 @@ def _named_conditions(fn):
                 v = st.targets[0].id
                 if len(stores.get(v, [])) != 1 or v in params or v in nested_reads or not _is_boolish(st.value):
                     continue
-                ok_names = {k for k, s in stores.items() if len(s) == 1} | {p for p in params if p not in stores} | {"self", "True", "False", "None"}
-                free = {x.id for x in ast.walk(st.value) if isinstance(x, ast.Name)}
-                if not _pure_cond(st.value, ok_names | (free - set(stores))):
+                # the uses directly follow the definition (checked below), so the operands cannot change in between: any name may occur
+                if not _pure_cond(st.value, {x.id for x in ast.walk(st.value) if isinstance(x, ast.Name)}):
                     continue
                 # uses: only in tests / other named conditions of the statements that directly follow, in the same block
                 uses = loads.get(v, [])
